@@ -16,7 +16,8 @@ CONSTANTS UPs, UJs, StepIds, JobIds, ServerIds, StorageIds, NetIds, CountryIds, 
           JFN,          \* UsageJourney lists its patterns' networks as dependents (repaired behaviour)
           CANON,        \* merged chain re-sorted canonically when both parts are present (repaired)
           Groups,       \* also explore two-change grouped updates
-          CheckUpdates  \* FALSE: only the creation order is evaluated
+          CheckUpdates, \* FALSE: only the creation order is evaluated
+          CheckGraph    \* also evaluate GraphFresh (the recorded graph after each update)
 
 VARIABLES topo, phase, bad
 
@@ -85,19 +86,28 @@ StaleOf(T, cs) ==
     LET T2 == ApplyAll(T, cs, 1)
     IN  StaleAfter(T, T2, cs, {}, JFN, CANON) \cap Relevant(T2)
 
+DirtyOf(T, cs) ==
+    LET T2 == ApplyAll(T, cs, 1)
+    IN  DirtyAfter(T, T2, cs, JFN, CANON) \cap Relevant(T2)
+
 VARIABLE created      \* stale slots right after System creation (must be empty)
-Init == topo \in Topologies /\ phase = "new" /\ bad = {} /\ created = {}
+VARIABLE badTok       \* updates after which a relevant slot still lists a superseded value object among its ancestors
+Init == topo \in Topologies /\ phase = "new" /\ bad = {} /\ created = {} /\ badTok = {}
 Check ==
     /\ phase = "new"
     /\ phase' = "checked"
     /\ bad' = IF CheckUpdates THEN {cs \in Updates(topo) : StaleOf(topo, cs) # {}} ELSE {}
     /\ created' = StaleAfterCreation(topo, JFN)
+    /\ badTok' = IF CheckUpdates /\ CheckGraph THEN {cs \in Updates(topo) : DirtyOf(topo, cs) # {}} ELSE {}
     /\ UNCHANGED topo
 Next == Check
-vars == <<topo, phase, bad, created>>
+vars == <<topo, phase, bad, created, badTok>>
 Spec == Init /\ [][Next]_vars
 
+SibOff == FALSE             \* for the configuration line  SiblingClosure <- SibOff  (pre-4d00801 behaviour, sensitivity run)
 NoStale == bad = {}
+(* ... and the recorded graph is the ideal one again, which is what lets NoStale extend to every history by induction *)
+GraphFresh == badTok = {}
 (* a freshly created system is a fixed point: nothing is left stale by the creation order *)
 FreshAfterCreation == created = {}
 (* every update of a freshly created system leaves nothing stale -- including "no update" *)
